@@ -53,12 +53,15 @@ def run(repo: Repo, rep: Report) -> None:
 
     # (b)
     rep.rule("C19.b-link-walk-terminates",
-             "every loop that follows rdf:rest from its own cursor is bounded by a counter, guarded by a visited "
-             "set whose membership test leaves the loop, or removes the link it follows", floor=5)
+             "every loop (while or for) that follows rdf:rest from its own cursor is bounded by a counter / runs a number of rounds fixed "
+             "beforehand (for .. in range), is guarded by a visited set whose membership test leaves the loop (written out, or kept by an "
+             "object of a package class whose method raises on a value it has recorded and records it otherwise), or removes the link it follows", floor=5)
+    from vlib import h_c19 as _Hb
+
     for mod, q, f in scope:
-        for loop, cur in loops.link_walk_loops(f):
-            why = loops.link_walk_guard(loop, cur, f)
-            rep.ob("C19.b-link-walk-terminates", mod, q, "while %s: ... %s = rdf:rest of %s" % (norm(loop.test), cur, cur), why is not None,
+        for loop, cur in _Hb.link_walks(f):
+            why = _Hb.walk_terminates(repo, mod, f, loop, cur)
+            rep.ob("C19.b-link-walk-terminates", mod, q, "%s: ... %s = rdf:rest of %s" % (_Hb.loop_head_text(loop), cur, cur), why is not None,
                    why or "no counter, visited-set guard or link removal: the walk never ends on a cyclic rdf:rest chain", node=loop)
     # readers must go through a guarded walk: __len__/__iter__ delegate to Graph.items
     for m in ("__len__", "__iter__"):
@@ -192,20 +195,13 @@ def run(repo: Repo, rep: Report) -> None:
         ok = g.must_pass_before(cn, relinks) or g.must_pass_after(cn, relinks)
         only_member = False
         if not ok:
-            # deleting the only member needs no relink: the deletion sits in a branch taken when the deleted cell's rdf:rest is rdf:nil / absent
-            subj = norm(c.args[0].elts[0])
-            rest_names = {norm(a.targets[0]) for a in own_nodes(f) if isinstance(a, ast.Assign) and isinstance(a.value, ast.Call) and norm(a.value.func).endswith(".value")
-                          and len(a.value.args) == 2 and norm(a.value.args[0]) == subj and norm(a.value.args[1]).endswith("RDF.rest")}
-            child = c
-            for p_ in col.parents(c):
-                if isinstance(p_, ast.If) and any(child is x or any(child is y for y in ast.walk(x)) for x in p_.body):
-                    for t in ast.walk(p_.test):
-                        if isinstance(t, ast.Compare) and norm(t.left) in rest_names and (norm(t.comparators[0]).endswith("RDF.nil") or norm(t.comparators[0]) == "None") \
-                                and isinstance(t.ops[0], (ast.Eq, ast.Is)):
-                            only_member = True
-                if p_ is f:
-                    break
-                child = p_
+            # deleting the only member needs no relink: on every path to the deletion a branch has established that the deleted cell's
+            # rdf:rest - a name bound to <graph>.value(<the cell>, rdf:rest) by every definition that reaches here - is rdf:nil or absent,
+            # whichever way the test is written (`n is None or n == nil` taken, `n is not None and n != nil` not taken, a guard clause ...)
+            from vlib import h_c19 as _Hd
+
+            subj = norm(_Hd.strip_cast(c.args[0].elts[0]))
+            only_member = any(_Hd.fact_on_every_path(g, cn, nm, _Hd.atom_none_or_nil(nm)) for nm in sorted(_Hd.successor_names(g, cn, f, subj)))
             ok = only_member
         rep.ob("C19.d-chain-upkeep", col, "Collection.__delitem__", c, ok,
                ("the deleted cell has no successor (only member): nothing to relink" if only_member else "cell deletion paired with a relink of rdf:rest on the same path") if ok else
@@ -217,7 +213,13 @@ def run(repo: Repo, rep: Report) -> None:
     rep.rule("C19.e-walk-errors-propagate",
              "no Collection method catches ValueError/Exception (or everything) around a call to one of the chain walks (index, _end, _get_container, "
              "graph.items, iteration) without re-raising: a cyclic or broken chain must raise, not be reported as `absent`", floor=1)
-    walks = {"index", "_end", "_get_container", "items", "__iter__", "__len__"}
+    # the chain walks, by role: Graph.items, the readers that delegate to it, and every Collection method that holds an rdf:rest walk or
+    # reaches one through self (on the pinned tree: index, _end, _get_container and their callers)
+    from vlib import h_c19 as _He
+
+    walks = {"items", "__iter__", "__len__"} | {mn for mn in methods if _He.walk_reached_from(methods, mn)}
+    if not {"index", "__getitem__", "append"} <= walks:
+        raise AnalysisError("Collection.index / __getitem__ / append reach no rdf:rest walk: rule (e) has lost its anchor")
     nh = 0
     for mname, f in methods.items():
         for t in [n for n in own_nodes(f) if isinstance(n, ast.Try)]:
@@ -295,7 +297,14 @@ def run(repo: Repo, rep: Report) -> None:  # noqa: F811
     _layer(rep, _run_base, repo)
     col = repo.mod("rdflib.collection")
     m = col.methods("Collection")
-    gc = m["_get_container"]
+    from vlib import h_c19 as _Hc
+
+    # the method that maps an index to its cell - private, so found by its role from the public __getitem__ (h_c19.cell_lookup_method)
+    gc_name = _Hc.cell_lookup_method(m)
+    if gc_name is None:
+        raise AnalysisError("Collection.__getitem__ hands its index to no method of the class that finds a cell by an rdf:rest walk: rules (g)-(i) have lost their anchor")
+    _Hc.CELL_LOOKUP = gc_name
+    gc = m[gc_name]
     idx = gc.args.args[1].arg
 
     # ------------------------------------------------------------------ (g)
@@ -309,14 +318,14 @@ def run(repo: Repo, rep: Report) -> None:  # noqa: F811
             pass
     rets = [r for r in own_nodes(gc) if isinstance(r, ast.Return) and r.value is not None and not (isinstance(r.value, ast.Constant) and r.value.value is None)]
     if not rets:
-        raise AnalysisError("_get_container: no value return")
+        raise AnalysisError("%s: no value return" % gc_name)
     for r in rets:
         cur = norm(r.value)
         guard = [n for n in own_nodes(gc) if isinstance(n, ast.If) and n.lineno < r.lineno and any(isinstance(c, ast.Compare) and {norm(c.left), norm(c.comparators[0])} == {cur, "RDF.nil"} for c in ast.walk(n.test))
                  and any(isinstance(x, ast.Return) and (x.value is None or (isinstance(x.value, ast.Constant) and x.value.value is None)) for x in n.body)]
         loop_excl = [n for n in own_nodes(gc) if isinstance(n, ast.While) and "RDF.nil" in norm(n.test) and cur in norm(n.test)]
         ok = bool(guard)
-        rep.ob("C19.g-nil-is-not-a-cell", col, "Collection._get_container", "return %s" % cur, ok,
+        rep.ob("C19.g-nil-is-not-a-cell", col, "Collection." + gc_name, "return %s" % cur, ok,
                "rdf:nil is mapped to None before the return" if ok else
                "for index == len(list) the walk ends on rdf:nil and returns it as if it were a cell: __getitem__ raises KeyError instead of IndexError, and __setitem__ writes (rdf:nil rdf:first x) into the graph", node=r)
     for name in ("__getitem__", "__setitem__"):
@@ -324,29 +333,41 @@ def run(repo: Repo, rep: Report) -> None:  # noqa: F811
         raises = any(isinstance(n, ast.Raise) and "IndexError" in norm(n) for n in own_nodes(f))
         rep.ob("C19.g-nil-is-not-a-cell", col, "Collection." + name, "missing cell -> IndexError", raises, "" if raises else "no IndexError raised for a missing cell", node=f)
     # __setitem__: when the addressed cell does not exist, nothing is written (a list raises IndexError for every index outside range(len))
+    # Stated on paths, not on the shape of the if: the addressed cell is the plain name that is the subject of the rdf:first write; it
+    # exists when it is not None and holds a member, (cell, rdf:first, ..) in graph.  A statement that writes is in order when both facts
+    # have been established by branch edges on EVERY path to it (either arm of an if, a guard clause, De Morgan forms: h_c19.edge_establishes);
+    # a write some path reaches without them is a write for an index outside range(len)
+    from vlib import h_c19 as _Hg
+
     f = m["__setitem__"]
-    top = [n for n in f.body if isinstance(n, ast.If)]
-    if top:
-        def leaves(orelse):
-            for st in orelse:
-                if isinstance(st, ast.If):
-                    yield from ((b, st) for b in st.body)
-                    yield from leaves(st.orelse)
-                else:
-                    yield st, None
-        for st, guard in leaves(top[0].orelse):
-            if isinstance(st, ast.Raise):
-                continue
-            writes = any(isinstance(c, ast.Call) and isinstance(c.func, ast.Attribute) and c.func.attr in ("append", "add", "set", "__iadd__") for c in ast.walk(st)) or isinstance(st, ast.AugAssign)
-            if writes:
-                rep.ob("C19.g-nil-is-not-a-cell", col, "Collection.__setitem__", st, False,
-                       "on the path where the addressed cell does not exist (%s) the list is modified instead of IndexError being raised" % (norm(guard.test) if guard is not None else "else"), node=st)
+    g_si = CFG(f)
+    cells = sorted({_Hg.strip_cast(c.args[0].elts[0]).id for c in own_nodes(f)
+                    if isinstance(c, ast.Call) and isinstance(c.func, ast.Attribute) and c.func.attr in ("set", "add") and c.args and isinstance(c.args[0], ast.Tuple)
+                    and len(c.args[0].elts) == 3 and _Hg._is_first(c.args[0].elts[1]) and isinstance(_Hg.strip_cast(c.args[0].elts[0]), ast.Name)})
+    if not cells:
+        raise AnalysisError("Collection.__setitem__ writes no (cell, rdf:first, value) with a plain name for the cell: rule (g) has lost its anchor")
+    write_stmts: dict[int, ast.AST] = {}
+    for c in own_nodes(f):
+        if (isinstance(c, ast.Call) and isinstance(c.func, ast.Attribute) and c.func.attr in ("append", "add", "set", "__iadd__", "addN", "remove")) or (
+                isinstance(c, ast.AugAssign) and norm(c.target) == "self"):
+            nid = g_si.node_of(c, col)
+            write_stmts.setdefault(nid, g_si.nodes[nid].ast)
+    for nid in sorted(write_stmts):
+        st = write_stmts[nid]
+        if not g_si.reachable(nid):
+            continue
+        exists = any(_Hg.fact_on_every_path(g_si, nid, cell, _Hg.atom_not_none(cell)) and _Hg.fact_on_every_path(g_si, nid, cell, _Hg.atom_holds_member(cell)) for cell in cells)
+        if not exists:
+            rep.ob("C19.g-nil-is-not-a-cell", col, "Collection.__setitem__", st, False,
+                   "a path reaches this write on which the addressed cell does not exist (%s is None, or holds no rdf:first): the list is modified instead of IndexError being raised" % "/".join(cells), node=st)
+        else:
+            rep.ob("C19.g-nil-is-not-a-cell", col, "Collection.__setitem__", st, True, "only where the addressed cell exists and holds a member", node=st)
 
     # ------------------------------------------------------------------ (h)
     rep.rule("C19.h-negative-index-counts-from-the-end",
              "an index below zero is normalised by adding the length (in _get_container, and in __delitem__ before it does arithmetic on the key) - a walk `while i < index` "
              "with a negative index does not move and silently addresses the first cell: c[-1] reads, writes and deletes element 0", floor=2)
-    for name, f, var in (("_get_container", gc, idx), ("__delitem__", m["__delitem__"], m["__delitem__"].args.args[1].arg)):
+    for name, f, var in ((gc_name, gc, idx), ("__delitem__", m["__delitem__"], m["__delitem__"].args.args[1].arg)):
         norm_neg = [n for n in own_nodes(f) if isinstance(n, ast.If) and any(isinstance(c, ast.Compare) and norm(c.left) == var and isinstance(c.ops[0], ast.Lt) and norm(c.comparators[0]) == "0" for c in ast.walk(n.test))
                     and any(isinstance(x, ast.AugAssign) and norm(x.target) == var and "len(" in norm(x.value) for x in ast.walk(n))]
         rep.ob("C19.h-negative-index-counts-from-the-end", col, "Collection." + name, "if %s < 0: %s += len(self)" % (var, var), bool(norm_neg),
@@ -359,22 +380,15 @@ def run(repo: Repo, rep: Report) -> None:  # noqa: F811
     di = m["__delitem__"]
     kv = di.args.args[1].arg
     n_sites = 0
+    g_di = CFG(di)
     for c in own_nodes(di):
-        if isinstance(c, ast.Call) and norm(c.func) == "self._get_container" and c.args and norm(c.args[0]).replace(" ", "") == "%s-1" % kv:
+        if isinstance(c, ast.Call) and norm(c.func) == "self." + gc_name and c.args and norm(c.args[0]).replace(" ", "") == "%s-1" % kv:
             n_sites += 1
-            guarded = False
-            child = c
-            for p_ in col.parents(c):
-                if isinstance(p_, ast.If):
-                    in_body = any(child is x or any(child is y for y in ast.walk(x)) for x in p_.body)
-                    t = norm(p_.test).replace(" ", "")
-                    if in_body and ("%s>0" % kv in t or "%s>=1" % kv in t or "%s!=0" % kv in t):
-                        guarded = True
-                    if not in_body and ("%s==0" % kv == t or "%s<1" % kv == t):
-                        guarded = True
-                if p_ is di:
-                    break
-                child = p_
+            # `key > 0` established by a branch edge on every path to the lookup, key not re-bound since - the body of `if key > 0`,
+            # the else of `if key == 0`, the code after a guard clause `if key <= 0: ...; return` are the same thing (h_c19.positive_on_every_path)
+            from vlib import h_c19 as _Hi
+
+            guarded = _Hi.positive_on_every_path(g_di, g_di.node_of(c, col), kv)
             rep.ob("C19.i-head-deletion-does-not-relink-a-predecessor", col, "Collection.__delitem__", c, guarded,
                    "only for key > 0" if guarded else "_get_container(%s - 1) is evaluated for key == 0 as well: the `predecessor` of the head is the head itself (or the last cell)" % kv, node=c)
     if n_sites == 0:
@@ -544,23 +558,32 @@ def run(repo: Repo, rep: Report) -> None:  # noqa: F811
              "every loop of Collection / Graph.items that follows rdf:rest from its own cursor without consuming the link keeps a visited set and RAISES when "
              "a cell comes up again, on every path between two steps - all readers agree with len()/iteration. A walk that is only bounded by a counter "
              "answers c[k], c[k] = x and del c[k] for any k on a cyclic chain as if the list had that many members", floor=4)
-    n_walks = 0
+    # a walk is the def-use cycle cursor -> rdf:rest lookup -> cursor inside a loop, `while` or `for` (h_c19.link_walks)
     for mod, q, f in scope:
         g = None
-        for loop, cur in loops.link_walk_loops(f):
-            n_walks += 1
+        for loop, cur in h_c19.link_walks(f):
             consumed = loops._removes_link(loop, cur)
             if consumed:
-                rep.ob("C19.m-every-walk-raises-on-a-cycle", mod, q, "while %s: ... (%s)" % (norm(loop.test), consumed[:80]), True,
+                rep.ob("C19.m-every-walk-raises-on-a-cycle", mod, q, "%s: ... (%s)" % (h_c19.loop_head_text(loop), consumed[:80]), True,
                        "the walk deletes the link it follows: it cannot come back to a cell", node=loop)
                 continue
             if g is None:
                 g = CFG(f)
-            ok, why = h_c19.raising_cycle_guard(g, mod, loop, cur)
-            rep.ob("C19.m-every-walk-raises-on-a-cycle", mod, q, "while %s: ... %s = rdf:rest of %s" % (norm(loop.test), cur, cur), ok,
+            ok, why = h_c19.raising_cycle_guard(g, mod, loop, cur, repo=repo)
+            rep.ob("C19.m-every-walk-raises-on-a-cycle", mod, q, "%s: ... %s = rdf:rest of %s" % (h_c19.loop_head_text(loop), cur, cur), ok,
                    why if ok else why + ": on a cyclic rdf:rest chain this walk goes round and returns a cell (or never ends) instead of raising like len(c)", node=loop)
-    if n_walks < 4:
-        raise AnalysisError("expected >= 4 rdf:rest walks in Collection / Graph.items, found %d" % n_walks)
+    # the anchor, by role: each public operation that has to find a cell by following the chain reaches a walk that this rule has judged
+    # (its own, or that of a method it calls on self) - however many methods the walks are spread over
+    if not any(True for _ in h_c19.link_walks(gr.func("Graph.items"))):
+        raise AnalysisError("Graph.items holds no rdf:rest walk: rule (m) has lost its anchor")
+    for entry in ("index", "__getitem__", "__setitem__", "__delitem__", "append", "__iadd__", "clear"):
+        if entry not in methods:
+            raise AnalysisError("Collection.%s vanished" % entry)
+        via = h_c19.walk_reached_from(methods, entry)
+        if not via:
+            raise AnalysisError("Collection.%s reaches no rdf:rest walk (own loop or a method called on self): rule (m) has lost its anchor" % entry)
+        rep.ob("C19.m-every-walk-raises-on-a-cycle", col, "Collection." + entry, "finds its cell by the walk in %s" % ", ".join(via), True,
+               "the walk(s) it relies on are judged above", node=methods[entry])
 
     # ------------------------------------------------------------------ (n) the list node is never wiped
     rep.rule("C19.n-list-node-is-never-wiped",
@@ -600,8 +623,13 @@ _run_base5 = run
 
 
 def run(repo: Repo, rep: Report) -> None:  # noqa: F811
-    _layer(rep, _run_base5, repo)
     from vlib import h_c19 as H
+
+    # the index-to-cell method is found by role before any layer runs (a layer that is in order on the tree is skipped on the views)
+    _role = H.cell_lookup_method(repo.mod("rdflib.collection").methods("Collection")) if repo.mod("rdflib.collection").has("Collection") else None
+    if _role is not None:
+        H.CELL_LOOKUP = _role
+    _layer(rep, _run_base5, repo)
     from vlib.cfg import reaching_defs
 
     col = repo.mod("rdflib.collection")
